@@ -131,7 +131,7 @@ func replaceIdent(s, from, to string) string {
 // RuleAP1: the value stored for a directive parameter is the unescaped lexeme text,
 // untouched.
 func RuleAP1(c *Ctx) {
-	sc := c.Run.Begin("AP1", "every value AppendParameter stores (SetNamedParameter / AppendUnnamedParameter) is exactly the string of the unescaped parameter bytes - no trimming, case folding or other transformation on any path", 12)
+	sc := c.Run.Begin("AP1", "every value AppendParameter stores (SetNamedParameter / AppendUnnamedParameter) is exactly the string of the unescaped parameter bytes - no trimming, case folding or other transformation on any path", 2)
 	defer sc.End()
 	ap := c.Func("directive", "Directive.AppendParameter")
 	fd := c.P.Decl(ap)
